@@ -1641,6 +1641,36 @@ def c12_sites(repo_root, tier):
     oka = fn is not None and "_escape_string(str(self), \"'\")" in ast.unparse(fn) and "replace(" not in ast.unparse(fn)
     _ob(obs, "liquid2.builtin.expressions:Identifier.as_source/site.quoted-with-literal-escapes", oka,
         "a quoted identifier is written as ' + _escape_string(text, \"'\") + '" if oka else "a quoted identifier is escaped by hand: `${` inside it is printed bare and read back as an interpolation")
+    # a one-item array literal is an array only by its trailing comma
+    fn = em.find("ArrayLiteral.__str__") if em else None
+    oka = fn is not None and any(isinstance(t, ast.If) and ast.unparse(t.test) == "len(self.items) == 1" and any(
+        isinstance(r, ast.Return) and isinstance(r.value, ast.JoinedStr) and ast.unparse(r.value).rstrip("'\"").endswith(",") for r in ast.walk(t)) for t in ast.walk(fn))
+    _ob(obs, "liquid2.builtin.expressions:ArrayLiteral.__str__/site.single-item-trailing-comma", oka,
+        "a one-item array literal is printed with its trailing comma" if oka else "a one-item array literal `a,` is printed as `a`, which is the item itself")
+    # an optional *name* (a string that may be empty) is printed whenever it is present: tested with `is not None`, not by truthiness
+    n_opt = 0
+    from .sites_c11 import node_classes as _ncs
+    for m_, c_ in _ncs(repo, "Node"):
+        init = next((st for st in c_.body if isinstance(st, ast.FunctionDef) and st.name == "__init__"), None)
+        sfn = next((st for st in c_.body if isinstance(st, ast.FunctionDef) and st.name == "__str__"), None)
+        if init is None or sfn is None:
+            continue
+        opt_names = {a.arg for a in init.args.args + init.args.kwonlyargs if a.annotation is not None and "None" in ast.unparse(a.annotation)
+                     and any(k in ast.unparse(a.annotation) for k in ("str", "Identifier"))}
+        # ... where the class tells an empty name from an absent one (the name is part of a hash / key); a field that is only ever
+        # used as `self.f or default` treats '' like None, and dropping it changes nothing
+        keyed = {n for n in opt_names if any(isinstance(h, ast.Call) and isinstance(h.func, ast.Name) and h.func.id == "hash"
+                                              and any(isinstance(x, ast.Attribute) and x.attr == n for x in ast.walk(h)) for h in ast.walk(c_))}
+        opt_names = keyed
+        for t in ast.walk(sfn):
+            if isinstance(t, (ast.If, ast.IfExp)) and isinstance(t.test, ast.Attribute) and isinstance(t.test.value, ast.Name) and t.test.value.id == "self" and t.test.attr in opt_names:
+                n_opt += 1
+                _ob(obs, f"{m_.name}:{c_.name}.__str__/site.optional-name-by-presence.{t.test.attr}", False,
+                    f"`if self.{t.test.attr}` decides whether the name is printed: an empty name ('' is a valid quoted name) is dropped and the tag reparses as the unnamed form")
+            elif isinstance(t, (ast.If, ast.IfExp)) and ast.unparse(t.test) in {f"self.{n} is not None" for n in opt_names}:
+                n_opt += 1
+                _ob(obs, f"{m_.name}:{c_.name}.__str__/site.optional-name-by-presence.{ast.unparse(t.test).split()[0][5:]}", True, "the optional name is printed whenever it is not None")
+    _ob(obs, "liquid2/site.optional-names.count", n_opt >= 1, f"{n_opt} optional names in node serialisers")
     for cn in ("StringLiteral", "TemplateString"):
         fn = em.find(f"{cn}.__str__") if em else None
         okq, why = _quoting_ok(fn)
